@@ -37,6 +37,15 @@ fn c07_same_bucket_rules_with_different_tags() {
         }
         e.disable_tags(&["alpha", "beta"]);
         assert!(!e.check_network_request(&r).matched && !e.check_network_request(&req("https://t.example.com/x.js")).matched);
+        // "disabling tags behaves as set difference": also when the list names tags that are not enabled
+        e.use_tags(&["alpha"]);
+        e.disable_tags(&["alpha", "never-enabled"]);
+        assert!(!e.tag_exists("alpha") && !e.check_network_request(&r).matched, "optimize={optimize}: disable_tags([enabled, not enabled]) must remove the enabled one");
+        e.enable_tags(&["beta"]);
+        e.enable_tags(&["beta", "alpha"]);
+        assert!(e.tag_exists("alpha") && e.tag_exists("beta"));
+        e.disable_tags(&["gamma"]);
+        assert!(e.tag_exists("alpha") && e.tag_exists("beta") && e.check_network_request(&r).matched);
     }
 }
 
